@@ -171,3 +171,25 @@ def node_field_writes(prog):
                 if pr and isinstance(pr[-1], dict) and pr[-1].get("of") == NODE_TY and "field" in pr[-1]:
                     out.append((b, i, t, pr[-1]["field"], None))
     return out
+
+
+def outcome_of(path, res):
+    """How the Option-valued result `res` (a provenance term) was found to be on this path:
+    "Some", "None", or None when the path never examined it.  Understands `match`, `if let`,
+    `is_some()` / `is_none()` tests."""
+    for c, v, bb in path.decisions:
+        if c == ("variant", res) and v in ("Some", "None"):
+            return v
+    for e in path.events:
+        if e["k"] != "branch" or e["cond"][0] == "variant":
+            continue
+        c, neg = e["cond"], False
+        while c[0] == "unop" and c[1] == "Not":
+            c, neg = c[2], not neg
+        if c[0] == "call" and len(c[2]) == 1 and strip(c[2][0]) == res:
+            val = (e["value"] is True) != neg
+            if c[1].endswith("::is_some"):
+                return "Some" if val else "None"
+            if c[1].endswith("::is_none"):
+                return "None" if val else "Some"
+    return None
